@@ -492,10 +492,18 @@ def run_case(case, dec):
     except Exception:  # noqa: BLE001
         consumer = None
 
-    # crash points: every prefix; torn variants of multi-page writes
-    points = [(p, None) for p in range(nops + 1)]
+    # crash points: every prefix; torn variants of multi-page writes.  If the
+    # writer produced the file under another name and renamed it, the target
+    # name only exists from the rename on (earlier: nothing to open)
+    first_visible = 0
+    for src, dst, pos in disk.renames:
+        if dst == name:
+            first_visible = nops if pos is None else pos
+    points = [(p, None) for p in range(first_visible, nops + 1)]
     ntorn = 0
     for p in writes:
+        if p < first_visible:
+            continue
         size = len(wlog[p][2])
         pages = (size - 1) // simdisk.PAGE
         if pages >= 1:
